@@ -1,5 +1,6 @@
 import Thanos.Model.LazyReader
 import Thanos.Lemmas.LazyReader
+import Thanos.Lemmas.ReaderPool
 import Thanos.Generated.Facts
 /-
   C16 — Lazy index headers stay correct under concurrent idle unloading.
@@ -58,6 +59,114 @@ theorem C16_norecheck_false : ¬ C16_full false false := by
   revert this
   decide
 
+/-! ### load errors -/
+
+/-- C16 with failing loads: whichever attempts of NewBinaryReader fail, whatever the threads and
+    the schedule — nothing is dereferenced that is nil or closed; after a failed load there is no
+    reader at all (no half-initialised reader is installed); and a thread that got past `load()`
+    holds a loaded reader, so no call proceeds on a failed load: it ends with the load error. -/
+theorem C16_load_errors (kinds : List Kind) (failAt : List Nat) (schedule : List Nat) :
+    (run true false (initF kinds failAt) schedule).bad = false ∧
+    ((run true false (initF kinds failAt) schedule).readerErr = true →
+      (run true false (initF kinds failAt) schedule).reader = none) ∧
+    ∀ (i : Nat) (t : Thread), (run true false (initF kinds failAt) schedule).threads[i]? = some t →
+      (t.pc = .fast ∨ ∃ g, t.pc = .inUse g) →
+      (run true false (initF kinds failAt) schedule).reader.isSome = true ∧
+      (run true false (initF kinds failAt) schedule).readerErr = false := by
+  have hI := inv_run (inv_initF kinds failAt) schedule
+  refine ⟨hI.bad, hI.shared.errNil, ?_⟩
+  intro i t hi hpc
+  have hk := hI.known i t hi
+  have hsome : (run true false (initF kinds failAt) schedule).reader.isSome = true := by
+    rcases hpc with h | ⟨g, h⟩
+    · exact hk.1 h
+    · rw [hk.2.1 g h]; rfl
+  refine ⟨hsome, ?_⟩
+  cases he : (run true false (initF kinds failAt) schedule).readerErr with
+  | false => rfl
+  | true => rw [hI.shared.errNil he] at hsome; cases hsome
+
+/-- a failed load is final: from a reachable state with `readerErr` set, whatever happens next,
+    the error stays, NewBinaryReader is never attempted again (load counters frozen) and no reader
+    appears — every later call is answered with the stored error -/
+theorem C16_load_error_sticky (kinds : List Kind) (failAt : List Nat) (before after : List Nat)
+    (h : (run true false (initF kinds failAt) before).readerErr = true) :
+    (run true false (run true false (initF kinds failAt) before) after).readerErr = true ∧
+    (run true false (run true false (initF kinds failAt) before) after).loads =
+      (run true false (initF kinds failAt) before).loads ∧
+    (run true false (run true false (initF kinds failAt) before) after).loadFails =
+      (run true false (initF kinds failAt) before).loadFails ∧
+    (run true false (run true false (initF kinds failAt) before) after).reader = none := by
+  have hs := err_sticky_run true false after _ h
+  have hI := inv_run (inv_run (inv_initF kinds failAt) before) after
+  exact ⟨hs.1, hs.2.1, hs.2.2, hI.shared.errNil hs.1⟩
+
+-- the first load fails: the loading call and the next one both end with the load error; one attempt
+example : ((run true false (initF [.reader] [0]) [0, 0, 0, 0, 0, 0, 0, 0, 0]).log,
+           (run true false (initF [.reader] [0]) [0, 0, 0, 0, 0, 0, 0, 0, 0]).loads,
+           (run true false (initF [.reader] [0]) [0, 0, 0, 0, 0, 0, 0, 0, 0]).loadFails)
+    = ([(0, .loadErr), (0, .loadErr)], 1, 1) := by decide
+-- load, unload, then the reload (attempt 1) fails while a second reader waits for the write lock
+example : (run true false (initF [.reader, .unloader true, .reader] [1])
+    [0, 0, 0, 0, 0, 0, 0, 0, 0, 1, 1, 1, 0, 2, 0, 2, 0, 0, 0, 0, 0, 2, 2, 2, 2, 2]).log
+    = [(0, .ok 0), (1, .unloaded 0), (0, .loadErr), (2, .loadErr)] := by decide
+
+/-! ### the pool's set of tracked readers -/
+
+open Thanos.ReaderPool in
+/-- bookkeeping of ReaderPool.lazyReaders for every sequence of NewBinaryReader / Reader calls /
+    Close / closeIdleReaders: the map has no duplicates and only holds readers the pool handed
+    out; a reader is removed at most once (`removals` has no duplicates), a removed reader is not
+    in the map, and — when the pool sweeps — every reader is either tracked or was removed:
+    removed exactly once, by its Close. -/
+theorem C16_pool_bookkeeping (tracking : Bool) (ops : List ReaderPool.Op) :
+    ReaderPool.PInv (ReaderPool.run (ReaderPool.init tracking) ops) :=
+  ReaderPool.pinv_run (ReaderPool.pinv_init tracking) ops
+
+/-- Close removes the reader from the map, and it never comes back: after the Close of a reader
+    the pool handed out, whatever happens next (further calls on it, which reload it; sweeps;
+    other readers created and closed; a second Close), the map does not hold it -/
+theorem C16_pool_close_final (tracking : Bool) (before after : List ReaderPool.Op) (i : Nat)
+    (hex : i < (ReaderPool.run (ReaderPool.init tracking) before).readers.length) :
+    i ∉ (ReaderPool.run (ReaderPool.step (ReaderPool.run (ReaderPool.init tracking) before) (.close i)) after).tracked := by
+  cases tracking with
+  | false =>
+    have h0 := C16_pool_bookkeeping false before
+    have h2 := ReaderPool.pinv_run (ReaderPool.pinv_step h0 (.close i)) after
+    have := h2.off (by rw [ReaderPool.tracking_run, ReaderPool.tracking_step, ReaderPool.tracking_run]; rfl)
+    rw [this.1]; simp
+  | true =>
+    have h0 := C16_pool_bookkeeping true before
+    have h2 := ReaderPool.pinv_run (ReaderPool.pinv_step h0 (.close i)) after
+    have hrec := ReaderPool.close_recorded h0 (by rw [ReaderPool.tracking_run]; rfl) i hex
+    exact h2.disjoint i (ReaderPool.removals_mono_run after _ i hrec)
+
+/-- closeIdleReaders removes nothing from the map; it unloads exactly the tracked readers that are
+    loaded and were not used within the idle timeout — a reader used recently stays loaded, and a
+    reader the pool no longer tracks (closed by its consumer, then used again against the contract)
+    is never unloaded by a sweep -/
+theorem C16_pool_sweep (p : ReaderPool.Pool) :
+    (ReaderPool.step p .sweep).tracked = p.tracked ∧ (ReaderPool.step p .sweep).removals = p.removals ∧
+    ∀ k r, p.readers[k]? = some r →
+      (ReaderPool.step p .sweep).readers[k]? =
+        some (if ReaderPool.idle p k r then { r with loaded := false } else r) := by
+  refine ⟨rfl, rfl, ?_⟩
+  intro k r hk
+  have := ReaderPool.sweepFrom_get p 0 p.readers k r hk
+  simpa [ReaderPool.step] using this
+
+-- create two readers, use both, one ages, sweep: only the aged one is unloaded; both stay tracked;
+-- closing the first removes it once, a second Close changes nothing
+example : (ReaderPool.run (ReaderPool.init true) [.new, .new, .use 0, .use 1, .age 1, .sweep]).readers
+    = [⟨true, true⟩, ⟨false, false⟩] := by decide
+example : (ReaderPool.run (ReaderPool.init true) [.new, .new, .use 0, .use 1, .age 1, .sweep, .close 0, .close 0]).tracked
+    = [1] := by decide
+example : (ReaderPool.run (ReaderPool.init true) [.new, .new, .use 0, .close 0, .close 0, .use 0, .age 0, .sweep]).removals
+    = [0] := by decide
+-- a closed reader that is used again is reloaded and then never swept (documented contract: do not)
+example : (ReaderPool.run (ReaderPool.init true) [.new, .close 0, .use 0, .age 0, .sweep]).readers
+    = [⟨true, false⟩] := by decide
+
 /-! ### regenerated facts: the lock skeleton in the source is the one modelled -/
 
 /-- every Reader method: RLock, deferred RUnlock, load(), then the call on r.reader
@@ -90,6 +199,31 @@ theorem C16_unload_skeleton_fact :
 theorem C16_no_alias_fact :
     "LabelValues" ∉ Thanos.Facts.lazyDirectReturns ∧
     Thanos.Facts.lazyLabelValuesReturns = ["nil", "nil", "copyStrings(values)"] := by decide
+
+/-- load(): both tests are made twice (before and under the write lock), a failed NewBinaryReader
+    stores the error and installs no reader, a successful one installs the reader -/
+theorem C16_load_error_fact :
+    Thanos.Facts.lazyLoadStmts =
+      ["if:r.reader != nil {", "return nil", "}", "if:r.readerErr != nil {", "return r.readerErr", "}",
+       "if:r.reader != nil {", "return nil", "}", "if:r.readerErr != nil {", "return r.readerErr", "}",
+       "reader, err := NewBinaryReader(r.ctx, r.logger, r.bkt, r.dir, r.id, r.postingOffsetsInMemSampling, r.binaryReaderMetrics)",
+       "if:err != nil {", "r.metrics.loadFailedCount.Inc()", "r.readerErr = err",
+       "return errors.Wrapf(err, \"lazy load index-header for block %s\", r.id)", "}",
+       "r.reader = reader", "return nil"] := by rfl
+
+/-- the pool: readers are put into the map only when the pool sweeps; the sweep unloads the idle
+    ones and deletes nothing; the only delete is onLazyReaderClosed, which Close defers -/
+theorem C16_pool_fact :
+    Thanos.Facts.poolTrackingStmts =
+      ["NewBinaryReader: if:p.lazyReaderEnabled && p.lazyReaderIdleTimeout > 0 {",
+       "NewBinaryReader: p.lazyReaders[reader.(*LazyBinaryReader)] = struct{}{}",
+       "closeIdleReaders: range:_,r in p.getIdleReadersSince(idleTimeoutAgo) {",
+       "closeIdleReaders: if:err := r.unloadIfIdleSince(idleTimeoutAgo); err != nil && !errors.Is(err, errNotIdle) {",
+       "getIdleReadersSince: range:r,unknown in p.lazyReaders {",
+       "getIdleReadersSince: if:r.isIdleSince(ts) {",
+       "onLazyReaderClosed: delete(p.lazyReaders, r)"] ∧
+    Thanos.Facts.lazyCloseStmts =
+      ["if:r.onClosed != nil {", "defer r.onClosed(r)", "}", "return r.unloadIfIdleSince(0)"] := by decide
 
 /-! ### non-vacuity: the schedules of the theorems really reach the interesting states -/
 
